@@ -28,7 +28,7 @@ func c11N(tier string) int {
 
 func init() {
 	register(&Prop{
-		ID: "C11",
+		ID:   "C11",
 		Rule: "inputs biased to what makes map iteration matter: hostile G-pager documents (several numeric URL components per link, gapped and equal-length runs, multi-valued query parameters, single-link groups), G-article pages with pagers, G-markup pages with several schema.org items / OpenGraph prefixes. (a) every input runs R times in one process (R = 8 quick / 40 thorough for pagination-bearing inputs, 3 / 6 otherwise), alternating ApplyForReader, ApplyForFile and Apply(dom.Parse(bytes)); all of Title, Text, serialised Node, WordCount, ContentImages, MarkupInfo, PaginationInfo, URL must be equal (nil = empty slice; TimingInfo ignored); (b) every input runs again in a second pass in reverse order in a different worker process and the digests of both passes are compared by the parent. Non-trivial = an input with non-empty output or non-empty pagination/markup; distinct = distinct input digests.",
 		Assumptions: []string{
 			"map-order dependence is probabilistic per input: a 25% minority outcome is missed with probability 0.75^8 = 10% per input in quick and 1e-5 in thorough; many inputs share a cause",
@@ -156,7 +156,9 @@ func runC11(c *Ctx, idx int) {
 		fmt.Fprintf(f, "%d %s %s|%s\n", j, dg, first.Prev, first.Next)
 		f.Close()
 	}
-	c.Sample(func() any { return map[string]any{"input": j, "kind": kind, "options": optsDesc(opts), "html": trunc(src, 1000)} })
+	c.Sample(func() any {
+		return map[string]any{"input": j, "kind": kind, "options": optsDesc(opts), "html": trunc(src, 1000)}
+	})
 }
 
 func c11Post(p *Parent) {
